@@ -16,9 +16,15 @@ that the result is invalid by the generator's own bookkeeping:
       predicate
   K9  one bracket outside string literals deleted or inserted
   K10 the closing quote of a string literal deleted
+
+Variables are local to a rule: "fresh" means fresh in the corrupted rule.  For body
+corruptions compiled through a direct caller the fresh name is, more often than not, the
+name of a variable BOUND IN THE CALLING RULE (an injected callee is merged into its caller,
+its unbound variable must not be captured by the caller's like-named one).
 """
 import contextlib
 import io
+import os
 import re
 import traceback
 
@@ -75,11 +81,81 @@ AGG = dict(p_colnames=0.0, p_neg=0.3, p_agg=0.4, p_distinct=0.6, p_sibling_reuse
            pred_agg_ops_s=('Min', 'Max', 'List', 'Count'))
 FUN = dict(p_colnames=0.0, p_two_rules=0.4, p_named=0.3, n_idb=(2, 2), n_inj=(0, 1),
            p_neg=0.1, p_agg=0.1, p_if=0.06, p_or=0.15, max_rows=3)
+# `inject`: chains of single-rule predicates calling each other (injected into their callers)
+INJ = dict(p_colnames=0.0, p_two_rules=0.12, p_named=0.4, n_idb=(2, 3), p_if=0.06, p_or=0.15,
+           p_neg=0.2, p_call_idb=0.8, max_rows=4)
 OPS_PER_PROGRAM = 6
-PROFILES = ('core', 'agg', 'agg', 'rec', 'functor')
+PROFILES = ('core', 'agg', 'agg', 'rec', 'functor', 'inject')
+P_CAPTURE = 0.65          # share of caller-capturable sites given a caller's variable name
+P_OBSERVER = 0.5          # recursive programs extended with a predicate reading a member
+
+
+def _finding_open(key, env):
+    """Exclusion of a known-finding class: on unless known_findings.json lists the key as
+    `fixed` (then its repro is a regression case); env var =0 / =1 forces off / on."""
+    v = os.environ.get(env, '')
+    if v != '':
+        return v != '0'
+    try:
+        return not any(e.get('key') == key and e.get('status') == 'fixed'
+                       for e in core.load_known(ID))
+    except Exception:       # pylint: disable=broad-exception-caught
+        return True
+
+
+# N1: functors.RemoveRulesProvenToBeNil raises "proven to be empty" only for names without
+# '_': a user predicate `My_Rec(x) :- My_Rec(x)` read under a negation / next to another
+# rule is silently replaced by `nil` and SQL is produced.  While open: K6 with underscore
+# names is compiled only through targets that still get a diagnostic.
+N1_BUCKET = 'accepted_invalid:K6:underscore_observed'
+EXCLUDE_N1 = _finding_open(N1_BUCKET, 'VERIF_C19_EXCLUDE_N1')
+# N2: an equality whose two sides are variables nothing binds (`y == z`, `y == z + 1`) is
+# dropped by ElliminateInternalVariables without a diagnostic.
+N2_BUCKET = 'accepted_invalid:K2:eq_free'
+EXCLUDE_N2 = _finding_open(N2_BUCKET, 'VERIF_C19_EXCLUDE_N2')
 
 
 # ------------------------------------------------------------------ base programs
+
+def injectable_callees(prog):
+    """Predicates the compiler injects into their callers (exactly one rule, with a body,
+    not distinct / aggregating) that have a direct caller."""
+    by = {}
+    for r in prog['rules']:
+        by.setdefault(r['pred'], []).append(r)
+    out = []
+    for pred, rs in by.items():
+        r = rs[0]
+        if len(rs) == 1 and r['body'] and not r.get('distinct') and keyword_distinct(r) and \
+                not any(h[0] == 'AGG' for _, h in r['head']) and direct_callers(prog, pred):
+            out.append(pred)
+    return out
+
+
+def add_observer(rng, prog):
+    """Recursive program + a predicate `Ob` outside the component that reads one member:
+    under a negation, next to another rule, or as its only rule."""
+    m = rng.choice(list(prog['names']))
+    fields, _ = fields_of(prog, m)
+    if not fields or prog['depth'] > 20 or prog.get('explicit_iter'):
+        return
+    args = tuple((f, ('var', v)) for f, v in zip(fields, ('x', 'y', 'z')))
+    call = ('call', m, args, ())
+    src = ('call', 'V', ((0, ('var', 'x')),), ())
+    how = rng.choice(['neg', 'neg', 'two_rules', 'two_rules', 'only_rule'])
+    head = ((0, ('var', 'x')),)
+    if how == 'neg':
+        rules = [model.mk_rule('Ob', head, (src, ('neg', (call,), 0)))]
+    elif how == 'two_rules':
+        rules = [model.mk_rule('Ob', head, (src,)), model.mk_rule('Ob', head, (call,))]
+        rng.shuffle(rules)
+    else:
+        rules = [model.mk_rule('Ob', head, (call,))]
+    at = rng.randint(0, len(prog['rules']))
+    prog['rules'] = list(prog['rules'][:at]) + rules + list(prog['rules'][at:])
+    prog['observer'] = [m, how]
+    prog['labels'] = sorted(set(prog['labels']) | {'observer:' + how})
+
 
 def gen_base(rng, tier='quick'):
     profile = rng.choice(PROFILES)
@@ -87,9 +163,13 @@ def gen_base(rng, tier='quick'):
         prog = gen.gen_program(rng, **CORE)
     elif profile == 'agg':
         prog = gen.gen_program(rng, **AGG)
+    elif profile == 'inject':
+        prog = gen.gen_program(rng, **INJ)
     elif profile == 'rec':
         deep = rng.random() < (0.05 if tier == 'quick' else 0.15)
         prog = recgen.gen_rec(rng, allow_deep=deep, deep_only=deep)
+        if rng.random() < P_OBSERVER:
+            add_observer(rng, prog)
     else:
         prog = gen_functor(rng)
     prog['profile'] = profile
@@ -99,6 +179,9 @@ def gen_base(rng, tier='quick'):
         cands = [p for p in prog['preds'] if p.startswith('I')]
         if prog.get('make') and rng.random() < 0.6:
             cands = [prog['make'][0][1]]
+        inj = sorted(injectable_callees(prog))
+        if inj and (profile == 'inject' or rng.random() < 0.5):
+            cands = inj
     prog['focus'] = rng.choice(cands) if cands else None
     return prog
 
@@ -177,10 +260,15 @@ def is_iterative(prog, pred):
     return prog['depth'] > 20 or bool(prog.get('explicit_iter'))
 
 
-def run_base(prog, text, pred, rules=None):
-    """-> 'ok' | 'rejected:<..>' | 'internal:<..>' | 'sqlite_budget' | 'sqlite_error'"""
+def run_base(prog, text, pred, rules=None, rename=None):
+    """-> 'ok' | 'rejected:<..>' | 'internal:<..>' | 'sqlite_budget' | 'sqlite_error'
+    rename: {name: new name} applied to the text (pred is given in new names)."""
+    orig = pred
+    if rename:
+        text, rules = rename_text(text, rename), None
+        orig = {b: a for a, b in rename.items()}.get(pred, pred)
     try:
-        if is_iterative(prog, pred):
+        if is_iterative(prog, orig):
             drive.run_concertina(text, [pred], max_calls=4000)
         else:
             drive.run(text, pred, rules=rules)
@@ -221,6 +309,36 @@ def fresh_var(rng, rule, prog, avoid=()):
     while 'qq%d' % n in used:
         n += 1
     return 'qq%d' % n, False
+
+
+def capture_names(prog, i):
+    """{direct caller: [variables of a calling rule's own level that do not occur in rule
+    i]}.  Such a name is as fresh in rule i as any other (variables are local to a rule),
+    and it is bound in the rule the callee is merged into when it is injected."""
+    r = prog['rules'][i]
+    used = model.rule_all_vars(r)
+    out = {}
+    for c in direct_callers(prog, r['pred']):
+        names = set()
+        for cr in prog['rules']:
+            if cr['pred'] == c and r['pred'] in own_calls(cr['body']):
+                names |= model.own_vars(cr['body'])
+        names = sorted(v for v in names - used if re.match(r'^[a-z][a-z0-9]*$', v))
+        if names:
+            out[c] = names
+    return out
+
+
+def maybe_capture(rng, prog, i, p):
+    """With probability P_CAPTURE rename the fresh variable of a K2/K3 site to a variable
+    of a calling rule and compile through that caller."""
+    cap = capture_names(prog, i)
+    if cap and rng.random() < P_CAPTURE:
+        c = rng.choice(sorted(cap))
+        p['var'] = rng.choice(cap[c])
+        p['callee_name'] = False
+        p['via'] = c
+    return p['var']
 
 
 def with_rule(prog, i, r2):
@@ -428,8 +546,12 @@ def choose_K2(rng, prog):
              var_is_live(r, body[:k] + body[k + 1:], l[1], prog.get('inj', {}))]
     if combs:
         modes += ['in_combine', 'in_combine']
+    if not EXCLUDE_N2:
+        modes.append('eq_free')
     mode = rng.choice(modes)
     p = {'rule': i, 'var': q, 'callee_name': clash, 'mode': mode}
+    if mode != 'in_combine':
+        q = maybe_capture(rng, prog, i, p)
     if mode == 'insert':
         p['at'] = rng.randint(0, len(body))
         p['lit'] = cmp_with(rng, q, some_operand(rng, body))
@@ -440,6 +562,12 @@ def choose_K2(rng, prog):
         p['at'] = rng.choice(ors)
         p['branch'] = rng.randrange(len(body[p['at']][1]))
         p['lit'] = cmp_with(rng, q, some_operand(rng, body[p['at']][1][p['branch']]))
+    elif mode == 'eq_free':
+        q2, _ = fresh_var(rng, r, prog, avoid=[q])
+        rhs = ('var', q2) if rng.random() < 0.5 else ('bin', '+', ('var', q2), ('lit', 1))
+        p['at'] = rng.randint(0, len(body))
+        p['var2'] = q2
+        p['lit'] = ('cmp', '==', ('var', q), rhs)
     else:
         p['at'] = rng.choice(combs)
         p['lit'] = cmp_with(rng, q, some_operand(rng, body[p['at']][4]))
@@ -450,7 +578,9 @@ def apply_K2(prog, p):
     r = dict(prog['rules'][p['rule']])
     body = list(r['body'])
     k = p['at']
-    if p['mode'] == 'insert':
+    fresh = [p['var']] + ([p['var2']] if p.get('var2') else [])
+    assert not set(fresh) & model.rule_all_vars(r)
+    if p['mode'] in ('insert', 'eq_free'):
         body.insert(k, model.tup(p['lit']))
     elif p['mode'] == 'replace':
         l = list(body[k])
@@ -470,7 +600,7 @@ def apply_K2(prog, p):
         l[4] = tuple(l[4]) + (model.tup(p['lit']),)
         body[k] = tuple(l)
     r['body'] = tuple(body)
-    return with_rule(prog, p['rule'], r), {'rule': p['rule'], 'vars': [p['var']],
+    return with_rule(prog, p['rule'], r), {'rule': p['rule'], 'vars': fresh,
                                             'preds': [r['pred']]}
 
 
@@ -486,6 +616,7 @@ def choose_K3(rng, prog):
     q, clash = fresh_var(rng, r, prog)
     negs = [k for k, l in enumerate(body) if l[0] == 'neg']
     p = {'rule': i, 'var': q, 'callee_name': clash}
+    q = maybe_capture(rng, prog, i, p)
     if negs:
         p['mode'] = 'existing'
         p['at'] = rng.choice(negs)
@@ -519,6 +650,7 @@ def choose_K3(rng, prog):
 def apply_K3(prog, p):
     r = dict(prog['rules'][p['rule']])
     body = list(r['body'])
+    assert p['var'] not in model.rule_all_vars(r)
     if p['mode'] == 'existing':
         l = body[p['at']]
         assert l[0] == 'neg'
@@ -608,12 +740,38 @@ def apply_K5(prog, p):
                                             'any_rule_of': r['pred']}
 
 
+def underscore_name(n):
+    return n[0] + '_' + n[1:]
+
+
+def rename_text(text, mapping):
+    for a, b in sorted(mapping.items()):
+        text = re.sub(r'(?<![A-Za-z0-9_])%s(?![A-Za-z0-9_])' % re.escape(a), b, text)
+    return text
+
+
+def k6_mapping(params):
+    if not params.get('underscore'):
+        return {}
+    return {n: underscore_name(n) for n in params['component']}
+
+
 def choose_K6(rng, prog):
     comps, dd = recgen.components(prog)
     if not comps:
         return None
     comp = sorted(rng.choice([sorted(c) for c in comps]))
-    return {'component': comp, 'target': rng.choice(comp)}
+    p = {'component': comp, 'target': rng.choice(comp), 'tkind': 'self',
+         'underscore': rng.random() < 0.4}
+    ob = prog.get('observer')
+    if ob and ob[0] in comp and rng.random() < 0.7:
+        if p['underscore'] and ob[1] != 'only_rule' and EXCLUDE_N1:
+            p['excluded'] = 'N1_underscore_member_read_by_live_observer'
+        else:
+            p['target'], p['tkind'] = 'Ob', 'caller'
+    if p['underscore'] and p['tkind'] == 'self':
+        p['target'] = underscore_name(p['target'])
+    return p
 
 
 def apply_K6(prog, p):
@@ -627,8 +785,9 @@ def apply_K6(prog, p):
     p2['rules'] = keep
     # by construction no member can ever hold a row
     assert not any(r['pred'] in comp and not (common.deps_of_rule(r) & comp) for r in keep)
-    return p2, {'rule': None, 'vars': [], 'preds': sorted(comp),
-                'n_deleted': len(prog['rules']) - len(keep)}
+    m = k6_mapping(p)
+    return p2, {'rule': None, 'vars': [], 'preds': sorted(m.get(n, n) for n in comp),
+                'n_deleted': len(prog['rules']) - len(keep), 'rename': m}
 
 
 def choose_K7(rng, prog):
@@ -667,17 +826,29 @@ def apply_K7(prog, p):
 def choose_K8(rng, prog):
     defined = set(preds_in_order(prog)) | set(prog.get('inj', {})) | \
         set(m[0] for m in prog.get('make') or ())
-    style = rng.choice(['fresh', 'fresh', 'typo'])
+    style = rng.choice(['fresh', 'fresh', 'typo', 'fresh_underscore', 'typo_underscore',
+                        'typo_underscore'])
     if style == 'fresh':
         name = rng.choice(['Zq', 'Missing', 'Qx9'])
-    else:
+    elif style == 'fresh_underscore':
+        name = rng.choice(['Zq_x', 'Missing_Pred', 'Nothing_Like_It', 'Qx_9'])
+    elif style == 'typo':
         name = rng.choice(sorted(defined)) + rng.choice(['x', 'Z', '2'])
+    else:
+        # never the name of a predicate the compiler makes (P_r1, P_f2, P_recursive_head,
+        # P_MultBodyAggAux, ...): those exist
+        d = rng.choice(sorted(defined))
+        if len(d) > 1 and '_' not in d and rng.random() < 0.5:
+            k = rng.randint(1, len(d) - 1)
+            name = d[:k] + '_' + d[k:]
+        else:
+            name = d + rng.choice(['_x', '_Z', '_2', '_old'])
     while name in defined:
         name += 'q'
     a = rng.choice(ANNOTATIONS)
     extra = {'@OrderBy': ', "col0"', '@Limit': ', %d' % rng.randint(1, 3)}.get(a, '')
-    return {'annotation': a, 'name': name, 'line': '%s(%s%s);' % (a, name, extra),
-            'pos': rng.randrange(64)}
+    return {'annotation': a, 'name': name, 'style': style,
+            'line': '%s(%s%s);' % (a, name, extra), 'pos': rng.randrange(64)}
 
 
 def choose_text_site(rng, prog, kind):
@@ -757,6 +928,8 @@ def corrupt(prog, op, params):
     if op in APPLIERS:
         p2, hint = APPLIERS[op](prog, params)
         lines = render(p2)
+        if hint.get('rename'):
+            lines = [(sid, rename_text(l, hint['rename'])) for sid, l in lines]
         bad = None
         sid = ['rule', hint['rule']] if hint.get('rule') is not None else hint.get('stmt')
         if sid is not None:
@@ -780,11 +953,13 @@ def default_target(prog, op, params, hint, rng=None):
     """The predicate to compile (the one whose definition contains the corruption)."""
     preds = preds_in_order(prog)
     if op == 'K6':
-        return 'self', params['target']
+        return params.get('tkind', 'self'), params['target']
     if op == 'K7':
         return 'made', prog['make'][params['make']][0]
     if op in ('K1', 'K2', 'K3', 'K4', 'K5'):
         pred = prog['rules'][params['rule']]['pred']
+        if params.get('via'):
+            return 'caller', params['via']
         if rng is not None:
             # a head field / the value of a combine reaches a caller only if the caller
             # asks for that column; body constraints always do
@@ -892,8 +1067,17 @@ def judge(prog, op, params, kind_target=None):
         labels.append('%s:%s' % (op, params['mode']))
     if params.get('callee_name'):
         labels.append('fresh_var_named_like_callee_local')
+    if params.get('via'):
+        labels.append('fresh_var_named_like_caller_variable')
+        if prog['rules'][params['rule']]['pred'] in injectable_callees(prog):
+            labels.append('captured_in_injected_callee:' + op)
     if op == 'K8':
         labels.append('K8:' + params['annotation'])
+        labels.append('K8:name_' + params.get('style', 'fresh'))
+    if op == 'K6' and params.get('underscore'):
+        labels.append('K6:underscore_names')
+    if op == 'K6' and tkind == 'caller':
+        labels.append('K6:observer_' + (prog.get('observer') or [0, '?'])[1])
     if op == 'K6':
         labels.append('K6:deleted_%s' % ('1' if hint['n_deleted'] == 1 else 'many'))
         labels.append('K6:component_%d' % len(params['component']))
@@ -942,8 +1126,10 @@ def judge(prog, op, params, kind_target=None):
         res.update(status='fail', bucket='internal:%s:%s' % (op, drive.exc_frame(e)),
                    detail='%s\n%s' % (traceback.format_exc()[-1500:], head))
         return res
-    res.update(status='fail', bucket='accepted_invalid:%s%s' % (
-        op, ':' + params['mode'] if params.get('mode') else ''),
+    sub = ':' + params['mode'] if params.get('mode') else ''
+    if op == 'K6' and params.get('underscore') and tkind == 'caller':
+        sub = ':underscore_observed'
+    res.update(status='fail', bucket='accepted_invalid:%s%s' % (op, sub),
         detail='SQL was produced for an invalid program (%d chars)\n%s\n--- SQL\n%s' % (
             len(sql), head, sql[:1500]))
     return res
@@ -984,11 +1170,15 @@ def shard(ctx, col):
                 col.label('no_site:%s:%s' % (op, prog['profile']))
                 continue
             done += 1
+            if params.get('excluded'):
+                col.exclude(params.pop('excluded'))
             params = model.prog_to_json(params)
             tkind, target = default_target(prog, op, params, None, rng)
-            if target not in base_status:
-                base_status[target] = run_base(prog, base_text, target, base_rules)
-            bs = base_status[target]
+            ren = k6_mapping(params) if op == 'K6' else {}
+            bkey = (target, bool(ren))
+            if bkey not in base_status:
+                base_status[bkey] = run_base(prog, base_text, target, base_rules, ren)
+            bs = base_status[bkey]
             if bs.startswith('rejected') or bs.startswith('internal') or bs == 'sqlite_error':
                 # the base is not accepted by the compiler: other properties' business
                 col.exclude('base_' + bs.split('@')[0])
@@ -1021,7 +1211,7 @@ def evidence_extra(col):
 def prog_of_case(case):
     prog = model.prog_from_json(case['prog'])
     for k in ('names', 'ann_pred', 'depth', 'explicit_iter', 'kind', 'distinct', 'profile',
-              'make', 'sig'):
+              'make', 'sig', 'observer'):
         if k in case['prog']:
             prog[k] = case['prog'][k]
     return prog
@@ -1030,16 +1220,24 @@ def prog_of_case(case):
 def check_case(case):
     drive.enable_library_cache()
     prog = prog_of_case(case)
-    if case['target'][0] == 'caller':
-        site = _site_rule(case['params'])
-        if site is None or case['target'][1] not in direct_callers(
-                prog, prog['rules'][site]['pred']):
-            return []                   # not a target the catalogue would choose
+    if case['target'][0] == 'caller' and not _caller_ok(prog, case):
+        return []                       # not a target the catalogue would choose
     try:
         res = judge(prog, case['op'], case['params'], tuple(case['target']))
     except OutOfDomain:
         return []
     return [(res['bucket'], res['detail'])] if res['status'] == 'fail' else []
+
+
+def _caller_ok(prog, case):
+    """The requested predicate is a direct caller of the corrupted predicate (K6: of a
+    member of the emptied component, from outside of it)."""
+    t = case['target'][1]
+    if case['op'] == 'K6':
+        comp = set(case['params']['component'])
+        return t not in comp and any(t in direct_callers(prog, m) for m in comp)
+    site = _site_rule(case['params'])
+    return site is not None and t in direct_callers(prog, prog['rules'][site]['pred'])
 
 
 def _site_rule(params):
@@ -1055,11 +1253,10 @@ def _still_fails(c2, bucket):
         defined = set(preds_in_order(prog2)) | set(prog2.get('inj', {}))
         closed = all(common.deps_of_rule(r) <= defined for r in prog2['rules'])
         if c2['target'][0] == 'caller':
-            site = _site_rule(c2['params'])
-            closed = closed and site is not None and c2['target'][1] in direct_callers(
-                prog2, prog2['rules'][site]['pred'])
+            closed = closed and _caller_ok(prog2, c2)
+        ren = k6_mapping(c2['params']) if c2['op'] == 'K6' else {}
         return closed and any(b == bucket for b, _ in check_case(c2)) and \
-            run_base(prog2, text_of(render(prog2)), c2['target'][1]) == 'ok'
+            run_base(prog2, text_of(render(prog2)), c2['target'][1], None, ren) == 'ok'
     except Exception:
         return False
 
